@@ -65,6 +65,9 @@ pub enum SdCall {
     NumBytes,
     CardType,
     MarkUninit,
+    /// a transfer that starts `past` blocks behind the card's last block: the card refuses the
+    /// command; nothing may be stored anywhere and the call must fail
+    Beyond { write: bool, past: u8, n: u8, seed: u32 },
 }
 
 #[derive(Clone, Debug, Serialize, Deserialize, PartialEq)]
@@ -109,6 +112,8 @@ enum Out {
     Blocks(u32),
     Bytes(u64),
     Type(Option<CardType>),
+    /// an out-of-range transfer was refused, as it must be
+    Refused,
 }
 
 /// Execute one call; `Err(String)` = driver returned an error; `Err(Failure)` outer = panic/hang.
@@ -142,6 +147,26 @@ fn do_call(sd: &Drv, card: &SimCard, call: &SdCall, blocks_cap: u64, written: &[
                 let bl: Vec<Block> = (0..n).map(|k| Block { contents: payload(*seed, k) }).collect();
                 sd.write(&bl, BlockIdx(start)).map_err(|e| format!("{:?}", e))?;
                 Ok(Out::Unit)
+            }
+            SdCall::Beyond { write, past, n, seed } => {
+                let n = (*n).clamp(1, 3) as u32;
+                let s0 = blocks_cap + *past as u64 % 4;
+                if s0 + n as u64 > u32::MAX as u64 {
+                    return Ok(Out::Unit);
+                }
+                start = s0 as u32;
+                count = n;
+                let r = if *write {
+                    let bl: Vec<Block> = (0..n).map(|k| Block { contents: payload(*seed, k) }).collect();
+                    sd.write(&bl, BlockIdx(start))
+                } else {
+                    let mut bl = vec![dirty_block(); n as usize];
+                    sd.read(&mut bl, BlockIdx(start))
+                };
+                match r {
+                    Err(_) => Ok(Out::Refused),
+                    Ok(()) => Err(format!("transfer of {} block(s) at block {} succeeded although the card has only {} blocks", n, start, blocks_cap)),
+                }
             }
             SdCall::NumBlocks => sd.num_blocks().map(|b| Out::Blocks(b.0)).map_err(|e| format!("{:?}", e)),
             SdCall::NumBytes => sd.num_bytes().map(Out::Bytes).map_err(|e| format!("{:?}", e)),
@@ -378,6 +403,7 @@ pub fn run_clean(c: &SdCase, split: bool, prop: &'static str, acc: &mut Acc) -> 
             SdCall::NumBlocks | SdCall::NumBytes => "call:capacity",
             SdCall::CardType => "call:card-type",
             SdCall::MarkUninit => "call:mark-uninit",
+            SdCall::Beyond { .. } => "call:transfer-beyond-the-last-block",
         });
     }
     let inner = card.0.borrow();
@@ -481,6 +507,7 @@ fn call_code(c: &SdCall) -> u8 {
         SdCall::NumBytes => 7,
         SdCall::CardType => 8,
         SdCall::MarkUninit => 9,
+        SdCall::Beyond { write, .. } => 10 + *write as u8,
     }
 }
 
@@ -530,6 +557,10 @@ fn run_faulted(c: &SdCase, acc: &mut Acc, monitor: bool) -> Result<(), Failure> 
             if fault_seen {
                 calls_after_recovery += 1;
             }
+        }
+        if matches!(call, SdCall::Beyond { .. }) {
+            // refused transfers belong to the fault-free runs (their Err is the expected answer)
+            continue;
         }
         let viol_before = card.0.borrow().viol.len();
         let fired_before = card.0.borrow().fault_fired;
@@ -779,6 +810,7 @@ pub fn call_strategy() -> impl Strategy<Value = SdCall> {
         1 => Just(SdCall::NumBytes),
         1 => Just(SdCall::CardType),
         1 => Just(SdCall::MarkUninit),
+        1 => (any::<bool>(), any::<u8>(), 1u8..4, any::<u32>()).prop_map(|(write, past, n, seed)| SdCall::Beyond { write, past, n, seed }),
     ]
 }
 
